@@ -44,7 +44,7 @@ META = {
             "glitches (1-3 cycle drop-outs inside a burst); detector kind polling/reset/ping and clock frequency per run; generator "
             "runs with generate held for 2-5 periods",
 }
-TIERS = {"quick": {"runs": 1200, "wall": 70}, "thorough": {"runs": 15000, "wall": 900}}
+TIERS = {"quick": {"runs": 2400, "wall": 70}, "thorough": {"runs": 15000, "wall": 900}}
 
 # USB 3.2 table 6-30 (seconds)
 POLLING = {"burst": (0.6e-6, 1.4e-6), "repeat": (6e-6, 14e-6), "typ": (1.0e-6, 10e-6)}
